@@ -36,28 +36,25 @@ fn any_opt_ts() -> (Option<jiff::Timestamp>, Option<i128>) {
     let (t, ns) = any_ts();
     if kani::any() { (Some(t), Some(ns)) } else { (None, None) }
 }
-/// any std Duration (secs: all u64, nanos < 10^9) with its exact nanosecond count
+/// any std Duration (secs: all u64, nanos < 10^9) with its exact nanosecond count secs * 10^9 + nanos. The count is
+/// taken from the model's memoised helper so that oracle and model share ONE 128-bit multiplier (two copies of the same
+/// multiplier cost the SAT solver 100-500 s per query); the helper itself is checked against independent arithmetic in
+/// `oracle_duration_nanos_exact`.
 fn any_duration() -> (Duration, i128) {
     let secs: u64 = kani::any();
     let nanos: u32 = kani::any();
     kani::assume(nanos < 1_000_000_000);
-    (Duration::new(secs, nanos), secs as i128 * 1_000_000_000 + nanos as i128)
+    let d = Duration::new(secs, nanos);
+    (d, jiff::model_duration_nanos(d))
 }
-/// a String of exactly `n` (concrete, <= 3) arbitrary ASCII bytes (NUL included)
+/// a String of exactly `n` (concrete, <= 4) arbitrary ASCII bytes (NUL included). Built by the helper crate `vhelp`
+/// (units/u5_json/vhelp): safe constructions (`String::push`, `from_utf8`) leave a symbolic length behind.
 fn ascii(n: usize) -> String {
-    let b: [u8; 3] = kani::any();
-    let mut s = String::with_capacity(4);
-    let mut i = 0;
-    while i < n {
-        kani::assume(b[i] < 0x80);
-        s.push(b[i] as char);
-        i += 1;
-    }
-    s
+    vhelp::ascii_string(kani::any(), n)
 }
-fn opt_ascii(n: usize) -> Option<String> {
-    let s = ascii(n);
-    if kani::any() { Some(s) } else { None }
+/// presence is a CONCRETE parameter: merging Some(String)/None symbolically makes CBMC lose the string lengths (README rule 3)
+fn opt_ascii(present: bool, n: usize) -> Option<String> {
+    if present { Some(ascii(n)) } else { None }
 }
 /// claims whose timestamps are arbitrary (absent / anywhere in range) and whose strings are absent
 fn time_claims() -> (RegisteredClaims, Option<i128>, Option<i128>) {
@@ -140,6 +137,20 @@ pub fn time_with_leeway_exact() {
     kani::cover!(true, "harness end reachable");
 }
 
+/// the oracle's "leeway in nanoseconds" (shared with the model, see `any_duration`) is secs * 10^9 + nanos
+#[kani::proof] #[kani::unwind(4)]
+pub fn oracle_duration_nanos_exact() {
+    let secs: u64 = kani::any();
+    let nanos: u32 = kani::any();
+    kani::assume(nanos < 1_000_000_000);
+    let v = jiff::model_duration_nanos(Duration::new(secs, nanos));
+    // independent arithmetic: u128, no overflow possible (< 2^94)
+    let w = (secs as u128).wrapping_mul(1_000_000_000u128) + nanos as u128;
+    vassert!(v >= 0 && v as u128 == w, "[C11] oracle helper: a Duration of (secs, nanos) is secs * 10^9 + nanos nanoseconds");
+    kani::cover!(secs == u64::MAX && nanos == 999_999_999, "largest Duration");
+    kani::cover!(true, "harness end reachable");
+}
+
 /// zero leeway is the plain time validator
 #[kani::proof] #[kani::unwind(4)]
 pub fn time_with_zero_leeway_is_time() {
@@ -178,8 +189,9 @@ pub fn has_expiry_exact() {
 }
 
 // ---------------------------------------------------------------------------------------------------------------------
-// string validators: claim length `a` and expected length `b` concrete per call, contents arbitrary ASCII, claim absent/present
-// and all other claims arbitrary short strings (so that looking at the wrong claim is visible).
+// string validators: claim presence, claim length `a`, expected length `b` and the decoy configuration are concrete per call
+// (README rules 1, 3); contents are arbitrary ASCII. Decoys: the three other string claims all hold the expected string
+// (`decoy = true`: a validator that looks at the wrong claim accepts wrongly) or are all absent (`decoy = false`: it rejects wrongly).
 fn str_eq(x: &str, y: &str) -> bool {
     let (x, y) = (x.as_bytes(), y.as_bytes());
     if x.len() != y.len() { return false; }
@@ -190,16 +202,17 @@ fn str_eq(x: &str, y: &str) -> bool {
 }
 macro_rules! string_validator {
     ($fname:ident, $V:ident, $field:ident, $o1:ident, $o2:ident, $o3:ident, $msg:literal, $emsg:literal) => {
-        fn $fname(a: usize, b: usize) {
-            let claim = opt_ascii(a);
+        fn $fname(present: bool, a: usize, b: usize, decoy: bool) -> bool {
+            let claim = opt_ascii(present, a);
             let want = ascii(b);
             let mut c = RegisteredClaims::default();
-            // the other string claims hold the expected string or something else: they must not influence the verdict
-            c.$o1 = if kani::any() { Some(want.clone()) } else { None };
-            c.$o2 = if kani::any() { Some(want.clone()) } else { opt_ascii(a) };
-            c.$o3 = if kani::any() { Some(want.clone()) } else { None };
-            c.$field = claim.clone();
+            if decoy {
+                c.$o1 = Some(want.clone());
+                c.$o2 = Some(want.clone());
+                c.$o3 = Some(want.clone());
+            }
             let expect = match &claim { Some(x) => str_eq(x, &want), None => false };
+            c.$field = claim;
             let r1 = $V(want.as_str()).validate(&c);         // T = &str
             let r2 = $V(want.clone()).validate(&c);          // T = String
             vcheck_all!(
@@ -207,9 +220,7 @@ macro_rules! string_validator {
                 (r2.is_ok() == expect, $msg),
                 ((r1.is_ok() || is_claims_error(&r1)) && (r2.is_ok() || is_claims_error(&r2)), $emsg),
             );
-            if a == b { kani::cover!(r1.is_ok(), "equal strings accepted"); }
-            kani::cover!(claim.is_none() && r1.is_err(), "absent claim rejected");
-            kani::cover!(claim.is_some() && r1.is_err(), "different claim rejected");
+            r1.is_ok()
         }
     };
 }
@@ -221,20 +232,27 @@ string_validator!(for_audience_case, ForAudience, aud, iss, sub, jti,
     "[C11] ForAudience(s) accepts iff aud is present and equal to s", "[C11] rejecting ForAudience returns exactly PasetoError::ClaimsError");
 
 macro_rules! string_harnesses {
-    ($case:ident: $($h:ident => [$(($a:literal, $b:literal)),+]),+ $(,)?) => {
-        $( #[kani::proof] #[kani::unwind(8)] pub fn $h() { $( $case($a, $b); )+ kani::cover!(true, "harness end reachable"); } )+
+    ($case:ident: $($h:ident ($can_accept:literal) => [$(($p:literal, $a:literal, $b:literal, $d:literal)),+]),+ $(,)?) => {
+        $( #[kani::proof] #[kani::unwind(6)] pub fn $h() {
+            let (mut all_acc, mut all_rej) = (true, true);
+            $( let ok = $case($p, $a, $b, $d); all_acc &= ok; if !($p && $a == 0 && $b == 0) { all_rej &= !ok; } )+
+            if $can_accept { kani::cover!(all_acc, "equal strings are accepted (every case at once)"); }
+            kani::cover!(all_rej, "absent / different strings are rejected (every case at once)");
+            kani::cover!(true, "harness end reachable");
+        } )+
     };
 }
-// equal lengths 0..=3 (the only cases that can accept) and every length mismatch class
+// present claim of equal length 0..=3 (the only cases that can accept), with and without decoys
+// absent claim (decoys hold the expected string) and every length-mismatch class
 string_harnesses!(for_subject_case:
-    for_subject_len_eq => [(0, 0), (1, 1), (2, 2), (3, 3)],
-    for_subject_len_ne => [(0, 1), (1, 0), (2, 3), (3, 2), (1, 3), (3, 0)]);
+    for_subject_len_eq (true) => [(true, 0, 0, true), (true, 1, 1, false), (true, 2, 2, true), (true, 3, 3, false), (true, 3, 3, true)],
+    for_subject_absent_or_len_ne (false) => [(false, 0, 0, true), (false, 0, 2, true), (false, 0, 1, false), (true, 0, 1, true), (true, 1, 0, true), (true, 2, 3, true), (true, 3, 2, false), (true, 1, 3, true)]);
 string_harnesses!(from_issuer_case:
-    from_issuer_len_eq => [(0, 0), (1, 1), (2, 2), (3, 3)],
-    from_issuer_len_ne => [(0, 1), (1, 0), (2, 3), (3, 2), (1, 3), (3, 0)]);
+    from_issuer_len_eq (true) => [(true, 0, 0, true), (true, 1, 1, false), (true, 2, 2, true), (true, 3, 3, false), (true, 3, 3, true)],
+    from_issuer_absent_or_len_ne (false) => [(false, 0, 0, true), (false, 0, 2, true), (false, 0, 1, false), (true, 0, 1, true), (true, 1, 0, true), (true, 2, 3, true), (true, 3, 2, false), (true, 1, 3, true)]);
 string_harnesses!(for_audience_case:
-    for_audience_len_eq => [(0, 0), (1, 1), (2, 2), (3, 3)],
-    for_audience_len_ne => [(0, 1), (1, 0), (2, 3), (3, 2), (1, 3), (3, 0)]);
+    for_audience_len_eq (true) => [(true, 0, 0, true), (true, 1, 1, false), (true, 2, 2, true), (true, 3, 3, false), (true, 3, 3, true)],
+    for_audience_absent_or_len_ne (false) => [(false, 0, 0, true), (false, 0, 2, true), (false, 0, 1, false), (true, 0, 1, true), (true, 1, 0, true), (true, 2, 3, true), (true, 3, 2, false), (true, 1, 3, true)]);
 
 // ---------------------------------------------------------------------------------------------------------------------
 #[kani::proof] #[kani::unwind(8)]
@@ -278,14 +296,13 @@ fn same_str(a: &Option<String>, b: &Option<String>) -> bool {
 fn same_ts(a: Option<jiff::Timestamp>, b: Option<jiff::Timestamp>) -> bool {
     match (a, b) { (None, None) => true, (Some(x), Some(y)) => x.model_nanos() == y.model_nanos(), _ => false }
 }
-fn builder_case(n: usize, m: usize) {
+/// `which` (the builder method), the argument length `n`, and the previous contents (present with length `m` / absent) are concrete
+fn builder_case(which: u8, n: usize, prev: bool, m: usize) {
     let (exp, _) = any_opt_ts();
     let (nbf, _) = any_opt_ts();
     let (iat, _) = any_opt_ts();
-    let c0 = RegisteredClaims { iss: opt_ascii(m), sub: opt_ascii(m), aud: opt_ascii(m), exp, nbf, iat, jti: opt_ascii(m) };
+    let c0 = RegisteredClaims { iss: opt_ascii(prev, m), sub: opt_ascii(!prev, m), aud: opt_ascii(prev, m), exp, nbf, iat, jti: opt_ascii(!prev, m) };
     let s = ascii(n);
-    let which: u8 = kani::any();
-    kani::assume(which < 4);
     let c1 = match which {
         0 => c0.clone().from_issuer(s.clone()),
         1 => c0.clone().for_subject(s.clone()),
@@ -304,13 +321,15 @@ fn builder_case(n: usize, m: usize) {
         (jti_ok, "[C11] builder methods: jti is set by with_token_id to exactly the argument and untouched by the others"),
         (same_ts(c1.exp, c0.exp) && same_ts(c1.nbf, c0.nbf) && same_ts(c1.iat, c0.iat), "[C11] builder methods leave exp, nbf, iat untouched"),
     );
-    kani::cover!(which == 0); kani::cover!(which == 3);
 }
-#[kani::proof] #[kani::unwind(8)]
+#[kani::proof] #[kani::unwind(6)]
 pub fn builders_set_exactly_their_field() {
-    builder_case(2, 1);
-    builder_case(0, 3);
-    builder_case(3, 0);
+    builder_case(0, 2, true, 1);
+    builder_case(1, 3, true, 2);
+    builder_case(2, 1, false, 3);
+    builder_case(3, 2, false, 1);
+    builder_case(0, 0, false, 2);
+    builder_case(3, 3, true, 0);
     kani::cover!(true, "harness end reachable");
 }
 
@@ -332,11 +351,10 @@ pub fn built_claims_pass_their_validators() {
     kani::cover!(true, "harness end reachable");
 }
 
-#[kani::proof] #[kani::unwind(8)]
-pub fn composition_time_expiry_issuer() {
+fn composition_case(iss_present: bool) {
     let (now, now_ns) = any_ts();
     let (mut c, exp, nbf) = time_claims();
-    c.iss = opt_ascii(1);
+    c.iss = opt_ascii(iss_present, 1);
     c.sub = Some(String::from("a")); // a decoy: the issuer validator must not look here
     let iss_is_a = match &c.iss { Some(x) => x.as_bytes().len() == 1 && x.as_bytes()[0] == b'a', None => false };
     let r = Time::valid_at(now).and_then(HasExpiry).and_then(FromIssuer("a")).validate(&c);
@@ -346,10 +364,17 @@ pub fn composition_time_expiry_issuer() {
         (r.is_ok() == expect, "[C11] Time::valid_at(now).and_then(HasExpiry).and_then(FromIssuer(\"a\")) accepts iff all three accept"),
         (r.is_ok() || is_claims_error(&r), "[C11] the composition rejects with exactly PasetoError::ClaimsError"),
     );
-    kani::cover!(r.is_ok(), "all three accept");
-    kani::cover!(t_ok && exp.is_some() && !iss_is_a, "only the issuer check rejects");
-    kani::cover!(t_ok && exp.is_none() && iss_is_a, "only HasExpiry rejects");
-    kani::cover!(!t_ok && exp.is_some() && iss_is_a, "only the time check rejects");
+    if iss_present {
+        kani::cover!(r.is_ok(), "all three accept");
+        kani::cover!(t_ok && exp.is_some() && !iss_is_a, "only the issuer check rejects");
+        kani::cover!(t_ok && exp.is_none() && iss_is_a, "only HasExpiry rejects");
+        kani::cover!(!t_ok && exp.is_some() && iss_is_a, "only the time check rejects");
+    }
+}
+#[kani::proof] #[kani::unwind(6)]
+pub fn composition_time_expiry_issuer() {
+    composition_case(true);
+    composition_case(false);
     kani::cover!(true, "harness end reachable");
 }
 
@@ -358,7 +383,8 @@ pub fn composition_time_expiry_issuer() {
 pub fn canary_validators() {
     let (now, now_ns) = any_ts();
     let (d, d_ns) = any_duration();
-    let (c, exp, nbf) = time_claims();
+    let (mut c, exp, nbf) = time_claims();
+    c.sub = opt_ascii(true, 2);
     kani::assume(MIN_NS <= now_ns - d_ns && now_ns + d_ns <= MAX_NS);
     let r = Time::valid_at(now).with_leeway(d).validate(&c);
     let w = ascii(2);
